@@ -58,6 +58,7 @@ def pgpy_cert(name, uid='Alice Example <alice@example.org>', created=T0, sigtime
     [(fixture name, usage set)]."""
     import pgpy
     from pgpy.constants import KeyFlags, HashAlgorithm, SymmetricKeyAlgorithm, CompressionAlgorithm
+    from mc import alias
     r = raw(name, created)
     k = pgpy_secret(r)
     st = dt(sigtime if sigtime is not None else created + 1)
@@ -70,9 +71,14 @@ def pgpy_cert(name, uid='Alice Example <alice@example.org>', created=T0, sigtime
                   ciphers=[SymmetricKeyAlgorithm.AES256, SymmetricKeyAlgorithm.AES128, SymmetricKeyAlgorithm.CAST5],
                   compression=[CompressionAlgorithm.ZLIB, CompressionAlgorithm.Uncompressed], created=st)
         kw.update(prefs)
+        # caller-owned containers: fresh copies go in, and the caller re-uses them once the call is back (mc/alias.py)
+        kw = alias.fresh(kw)
         k.add_uid(u, **kw)
+        alias.scribble(kw)
     for sname, susage in subkeys:
         sr = raw(sname, created)
         sk = pgpy_secret(sr)
+        susage = alias.fresh(susage)
         k.add_subkey(sk, usage=susage, created=st)
+        alias.scribble(susage)
     return k, r
